@@ -31,6 +31,17 @@ struct NewFw
         igris::deserialize_buffer_storage st(igris::buffer(p, n));
         return igris::deserialize<T>(st);
     }
+    // serialize(obj, storage) into a caller-owned string_storage; deserialize<T>(std::string)
+    template <class T> static const char *extra(const T &v, const std::string &enc)
+    {
+        igris::string_storage st;
+        igris::serialize(v, st);
+        if (st.storage() != enc)
+            return "serialize(obj, storage): bytes differ from serialize(obj)";
+        if (enc.size() <= 4096 && !same(igris::deserialize<T>(enc), v))
+            return "deserialize<T>(std::string) != v";
+        return nullptr;
+    }
     struct Reader
     {
         size_t n;
